@@ -90,6 +90,7 @@ func C11(run *mon.Run) {
 		go func(bi int) {
 			defer wg.Done()
 			defer func() { <-sem }()
+			defer run.Protect("c11 worker")
 			r := run.Rand(fmt.Sprintf("base-%d", bi))
 			a := ecAlgs[bi%2]
 			nh := hashers[(bi/2)%len(hashers)]
@@ -333,6 +334,7 @@ func c11SignVolume(run *mon.Run) {
 		wg.Add(1)
 		go func(w int) {
 			defer wg.Done()
+			defer run.Protect("c11 worker")
 			r := run.Rand(fmt.Sprintf("sign-volume-%d", w))
 			for _, a := range ecAlgs {
 				d := new(big.Int).Mod(new(big.Int).SetBytes(mon.RandBytes(r, 40)), a.c.N)
